@@ -7,10 +7,13 @@ def run(ctx):
     res = ctx.pyvc(fns, mode="faulty")
     from lib import replay
     replay.replay_python(ctx, res)
+    ctx.cvc(["OO"], ["T-PIN", "T-REF"])
     ctx.standin("cmpfault_rt", families=("OO",))
     return "proof", (
         "Engine P, faulty-comparison mode: every compare() call and every ==/< on keys in the %d leaf-layer "
         "functions of _base.py additionally has the outcome 'raises'; on each such path the obligation is that "
         "the exception propagates and every heap cell (key list, value list, links, change flag) is exactly as on "
-        "entry (frame with an empty modifies set). The interior-node level, the C implementation and reference "
-        "counts after a failing n-th comparison are the bounded stand-in cmpfault_rt." % len(fns))
+        "entry (frame with an empty modifies set). C (object keys, _OOBTree.c): every ONERROR exit of the "
+        "search macros is an explored path of T-PIN (no pin survives) and T-REF (local references balanced), since the "
+        "comparison API may fail at every call. The interior-node level, contents-after-failure and reference counts "
+        "after a failing n-th comparison are the bounded stand-in cmpfault_rt." % len(fns))
